@@ -138,6 +138,9 @@ func (f *Fam) genBegin(r *rand.Rand, s *Snapshot) string {
 		if r.Float64() < f.gen.reliab[a] {
 			signed = 1
 		}
+		if v, ok := s.Vals[a]; ok && v.Status == 1 && r.Intn(5) != 0 {
+			signed = 0 // a validator that has begun to unstake mostly stops signing: its last votes are misses
+		}
 		vs = append(vs, fmt.Sprintf("%s:%d:%d", a, signers[a], signed))
 	}
 	v := "-"
